@@ -38,6 +38,8 @@ for d in sorted(glob.glob("/verif/seeded/*/")):
         res[key] = {"error": "patch does not apply"}
         continue
     out = {}
+    if not checks:
+        continue
     for c in checks:
         r = subprocess.run([os.environ.get("VX_CHECK", "/verif/check"), c], env=env, capture_output=True, text=True)
         first = next((l for l in r.stdout.splitlines() if l.startswith("VIOLATION")), "")
